@@ -528,7 +528,7 @@ def mkq(e, opt, sz, tv):
     return Q(qname(e, opt, sz), e["harness"],
              defs=["-I" + GEN, "-DC08_GEN=\"%s_%s.c\"" % (e["name"], opt), "-DC08_LOGN=%d" % logn, "-DC08_DIVN=%d" % divn, "-DC08_LOGH=\"%s\"" % logh, "-DVLOG_MAX=200000"] + (["-DC08_ONLINE=1"] if e["online"] else []) + e["cdefs"] + size_defs(sz),
              unwind=sz["unwind"], unwindset=uw, fsarray=e["fsarray"], backend=e["backend"], timeout=e["timeout"] if tier == "quick" else 900,
-             tier=tier, config=e["config"], checks=False, flags=["--no-standard-checks"] + (["--paths", "lifo"] if e["online"] else []),
+             tier=tier, config=e["config"], checks=False, flags=["--no-standard-checks"] + (["--paths", "lifo"] if e["online"] else []), objbits=16,
              desc="%s at clang -%s, %s: same branch/address/length/call-target/division-operand trace for all secrets (%s); public: %s; %d observations per run" %
                   (e["desc"], opt, sz["tag"], e["secret"], e["public"], tv["obs_max"]))
 
